@@ -41,6 +41,26 @@ def assign(t, obj, path, pyval, raw_index=None):
         parent[idx if len(idx) > 1 else idx[0]] = pyval
 
 
+def parts_of(t, obj, path=()):
+    """[path, offset, reported size] of every nested struct / array, as a handle reached from obj reports them"""
+    out = []
+    if t["k"] == "struct":
+        for i, (fname, ft) in enumerate(t["fields"]):
+            if ft["k"] in ("struct", "array"):
+                sub = getattr(obj, fname)
+                out.append([list(path + (("f", i),)), int(sub._offset), int(sub._size)])
+                out += parts_of(ft, sub, path + (("f", i),))
+    elif t["k"] == "array" and t["item"]["k"] in ("struct", "array"):
+        shape = [int(d) for d in obj._shape]
+        n = int(np.prod(shape)) if shape else 0
+        for c in range(n):
+            idx = unravel(c, shape)
+            sub = obj[idx if len(idx) > 1 else idx[0]]
+            out.append([list(path + (("i", c),)), int(sub._offset), int(sub._size)])
+            out += parts_of(t["item"], sub, path + (("i", c),))
+    return out
+
+
 def run_case(c):
     t = c["type"]; v = c["value"]
     T = X.build(t)
@@ -53,6 +73,11 @@ def run_case(c):
     off, size = int(obj._offset), int(obj._size)
     res["off"], res["size"] = off, size
     res["bytes0"] = snap(b)[off:off + size]
+    if c.get("report_parts"):
+        try:
+            res["parts0"] = parts_of(t, T._from_buffer(b, off))
+        except BaseException as e:  # noqa
+            res["parts0_exc"] = repr(e)[:200]
     for op in c["ops"]:
         st = {}
         before = snap(b)
@@ -97,6 +122,11 @@ def run_case(c):
             st["readback"] = X.readback(t, obj)
         except BaseException as e:  # noqa
             st["readback_exc"] = X.exc_class(e); st["readback_msg"] = repr(e)[:200]
+        if c.get("report_parts"):
+            try:
+                st["parts"] = parts_of(t, T._from_buffer(b, off))
+            except BaseException as e:  # noqa
+                st["parts_exc"] = repr(e)[:200]
         try:
             st["view_readback"] = X.readback(t, T._from_buffer(b, off))
         except BaseException as e:  # noqa
